@@ -31,7 +31,7 @@ CHECKS = {
         note='Modelled not verified: the C lexer; the comment parser is C10/C11\'s subject (blocks are inputs here); IntrospectablePass emitter validation (judged on the real GIR only).',
         design='Part B C03'),
     'C04': dict(
-        text='Theorems (all strings / all namespaces): prefix stripping (current namespace wins over includes, first matching prefix, `_` separator, leading underscore excluded, foreign prefix left out); every emitted function/constant carries a public name the current namespace claims (pipeline-wide invariant); _split_uscored_by_type returns the LONGEST `_`-boundary prefix registered and the exact remainder; the symbol prefix of a registered type is its get-type symbol minus exactly the final _get_type/_get_gtype; _is_method soundness and ownership; constructor soundness in full (origin carries the prefix, return type is the origin or an ancestor); static functions hang only on the longest type prefix; constructor naming incl. annotated constructors; method naming `_partial` + witness for the one remaining known finding (str.find leftmost occurrence); uniqueness invariant of the namespace container under append/float/remove; CamelCase to underscores incl. the acronym rule. Regex shapes and the dump-parser split are pinned per run. Validated only: re.sub semantics, the whole pairing on generated declaration sets x prefix configurations x registered types.',
+        text='Theorems (all strings / all namespaces): prefix stripping (current namespace wins over includes, first matching prefix, `_` separator, leading underscore excluded, foreign prefix left out); every emitted function/constant carries a public name the current namespace claims (pipeline-wide invariant); _split_uscored_by_type returns the LONGEST `_`-boundary prefix registered and the exact remainder; the symbol prefix of a registered type is its get-type symbol minus exactly the final _get_type/_get_gtype; _is_method soundness and ownership (incl. C04_method_not_of_foreign_type: a first parameter of a type of an included namespace never makes a method); constructor soundness in full (origin carries the prefix, return type is the origin or an ancestor); static functions hang only on the longest type prefix; constructor naming incl. annotated constructors; method naming `_partial` + witness for the one remaining known finding (str.find leftmost occurrence); uniqueness invariant of the namespace container under append/float/remove; CamelCase to underscores incl. the acronym rule. Regex shapes and the dump-parser split are pinned per run. Validated only: re.sub semantics, the whole pairing on generated declaration sets x prefix configurations x registered types.',
         note='Modelled not verified: the C lexer, CPython re/str (re-expressed, compared each run).',
         design='Part B C04'),
     'C05': dict(
@@ -131,7 +131,7 @@ CHECKS = {
         note='Modelled not verified: GMarkup; the node->blob mapping (C06). The tie between number-coded and string tables is checked by the compiled driver each run (kernel evaluation of string literals is too slow), only first rows are pinned in the kernel.',
         design='Part B C15'),
     'C16': dict(
-        text='Theorems: every order the writer imposes (sorted(...), nscmp) is a function of the set of siblings — invariant under every permutation given pairwise distinct keys; get_main_position is a function of the position SET; typedef-before-struct and struct-before-typedef build the same record; the block dictionary is independent of block and file order for distinct identifiers (duplicates are never silent); the order of _parsed_includes, hence C-type resolution through transitive includes, is independent of set iteration order (C16_parsed_includes_perm, full since the sorted iteration); the introspectable fixed point is reached, is the greatest one and is independent of the walk order (C16_fixpoint_*); decide theorems pin the sort sites, unsorted emissions and set iterations of the sources (regenerated each run). Determinism across processes, hash seeds and cache histories is a runtime fact: validated metamorphically on the real pipeline (fresh subprocesses under several PYTHONHASHSEEDs, permuted blocks/files/dump entries, declare-before-use declaration shuffles judged byte for byte, cold/warm/cross-seed cache with counted hits). No known finding.',
+        text='Theorems: every order the writer imposes (sorted(...), nscmp) is a function of the set of siblings — invariant under every permutation given pairwise distinct keys; get_main_position is a function of the position SET; typedef-before-struct and struct-before-typedef build the same record; the block dictionary is independent of block and file order for distinct identifiers (duplicates are never silent); the order of _parsed_includes, hence C-type resolution through transitive includes, is independent of set iteration order (C16_parsed_includes_perm, full since the sorted iteration); the introspectable fixed point is reached, is the greatest one and is independent of the walk order (C16_fixpoint_*); decide theorems pin the sort sites, unsorted emissions and set iterations of the sources (regenerated each run). Determinism across processes, hash seeds and cache histories is a runtime fact: validated metamorphically on the real pipeline (fresh subprocesses under several PYTHONHASHSEEDs, permuted blocks/files/dump entries, declare-before-use declaration shuffles judged byte for byte, cold/warm/cross-seed cache with counted hits, histories of scans from several working directories sharing one real cache with relative dependency paths and equal mtimes). No known finding.',
         note='Modelled not verified: CPython set/dict iteration (set = arbitrary permutation, dict = insertion order).',
         design='Part B C16'),
     'C17': dict(
@@ -139,7 +139,7 @@ CHECKS = {
         note='Modelled not verified: OS directory order (a directory is a set), GHashTable, strtol; cycles are invalid input.',
         design='Part B C17'),
     'C18': dict(
-        text='Theorems over a step model with one atomic step per system call of cachestore.py and its call site, for EVERY history (any number of processes, any interleaving, source modifications and replacements, a crash before any step): no load/store/purge step raises (no device hypothesis: the temporary file lives in the cache directory and is published by rename); a load returns nothing or a complete parse; what a load returns is what one single store wrote, and the entry carries exactly the mtime the source has now; publication is atomic; a store whose temp file was purged publishes nothing; torn entries are discarded; after any crash only complete entries or unpublished temp files remain; a version change discards all entries. The main freshness clause (C18_fresh_partial) is proved under the single hypothesis that source versions carry pairwise distinct mtimes, with a witness that it cannot be dropped (the one known finding: two versions with one mtime and a read in between). Validated: the real CacheStore and Transformer._parse_include under a controlled scheduler on a real directory vs the model; replays on real file systems in every tier.',
+        text='Theorems over a step model with one atomic step per system call of cachestore.py and its call site, for EVERY history (any number of processes, any interleaving, source modifications and replacements, a crash before any step): no load/store/purge step raises (no device hypothesis: the temporary file lives in the cache directory and is published by rename); a load returns nothing or a complete parse; what a load returns is what one single store wrote, and the entry carries exactly the mtime the source has now; publication is atomic; a store whose temp file was purged publishes nothing; torn entries are discarded; after any crash only complete entries or unpublished temp files remain; a version change discards all entries. The main freshness clause (C18_fresh_partial) is proved under the single hypothesis that source versions carry pairwise distinct mtimes, with a witness that it cannot be dropped (the one known finding: two versions with one mtime and a read in between). Validated: the real CacheStore and Transformer._parse_include under a controlled scheduler on a real directory vs the model; replays on real file systems in every tier; several source paths: a key-indexed family of the single-key model (C18_key_projection, C18_key_frame, C18_fresh_keyed under an injective entry-name function, C18_key_frame_needs_injective as the witness that injectivity is needed), the injectivity being tied to the real _get_filename by the c18.entry-name correspondence and a multi-source section on the real CacheStore (look-alike path spellings, equal mtimes, changing working directory).',
         note='Modelled not verified: POSIX semantics (atomic rename, open file survives unlink, stat returns the last mtime set), pickle.',
         design='Part B C18'),
     'C19': dict(
